@@ -41,11 +41,17 @@ func (c sigCombo) method(i int) gen.Method {
 	}
 	if c.Imported == 2 || c.Imported == 3 {
 		m.DstType = "ext.Pub2"
+		if i%2 == 1 {
+			m.DstType = "v1.Pod" // import path .../api/v1, package v1
+		}
 	}
 	if c.Named {
 		m.SrcName, m.DstName = "from", "to"
 	}
 	argTypes := []string{"int", "*ext.Person", "[]ext2.Item"}
+	if i%3 == 1 {
+		argTypes = []string{"v1.Kind", "*v1.Pod", "[]v1.Kind"}
+	}
 	for k := 0; k < c.NArgs; k++ {
 		a := gen.Arg{Type: argTypes[k]}
 		if c.Named {
@@ -257,6 +263,7 @@ func checkC09(r *report.Report, tier string, seed int64) error {
 	opt.MaxMethods = 3
 	opt.MaxFields = 5
 	opt.Hooks = 0.1
+	opt.Embedding = 0.3
 	n := tierN(tier, 56, 1500)
 	r.Rule = "files with 1-3 converter interfaces x 1-3 methods, interface-level {unset,on,off} toggles, :style and :match on most interfaces, method-level overrides, per-method :skip/:map/:conv/:literal lists; metamorphic oracle on the real tool: the function generated for each method in the full file must equal the function generated from a file containing only that method (under its interface's notations); plus the correspondence with the model, whose effective options are apply(method doc, apply(interface doc, defaults)); non-trivial = at least two methods in the file; distinct by file contents"
 	type pending struct {
